@@ -1537,6 +1537,42 @@ example : (30.6:ℝ) < 40 ∧ (440:ℝ) * 1500 - (-637 + 17 * 40) * (-637 + 17 *
     (20:ℝ) < 30.6 ∧ (440:ℝ) * 1500 - (-637 + 17 * 30.6) * (-637 + 17 * 30.6) ≠ 0 ∧ (-637:ℝ) + 17 * 30.6 ≠ 0 := by
   norm_num
 
+/-! ## Deepening round D: the eFJC in its guarded regimes -/
+
+/-- rows `L_c`, `S_t` of `efjc_distance_jac` are the partial derivatives in EVERY regime of the overflow guards
+    (the guarded `coth` is a constant for them) -/
+theorem efjc_distance_jac_Lc_St (f Lp Lc St kT : ℝ) (hSt : 0 < St) :
+    HasDerivAt (fun Lc => efjcDistance f Lp Lc St kT) ((efjcDistanceJac f Lp Lc St kT).getD 1 0) Lc ∧
+    HasDerivAt (fun St => efjcDistance f Lp Lc St kT) ((efjcDistanceJac f Lp Lc St kT).getD 2 0) St :=
+  ⟨efjc_jac_Lc f Lp Lc St kT, efjc_jac_St f Lp Lc St kT hSt⟩
+example : (0:ℝ) < 1500 := by norm_num
+
+/-- above the second guard (`2 f L_p / kT > 500`) the code sets `coth = 1` in the MODEL FUNCTION and drops `1/sinh²` in
+    the derivative and in the rows `L_p`, `kT`: consistent — all of them are exact derivatives of the function the
+    code computes there -/
+theorem efjc_distance_above_guards (f Lp Lc St kT : ℝ) (hf : 0 < f) (hLp : 0 < Lp) (hkT : 0 < kT) (hSt : 0 < St)
+    (hx : 500 < f * (2 * Lp / kT)) :
+    HasDerivAt (fun f => efjcDistance f Lp Lc St kT) (efjcDistanceDeriv f Lp Lc St kT) f ∧
+    HasDerivAt (fun Lp => efjcDistance f Lp Lc St kT) ((efjcDistanceJac f Lp Lc St kT).getD 0 0) Lp ∧
+    HasDerivAt (fun kT => efjcDistance f Lp Lc St kT) ((efjcDistanceJac f Lp Lc St kT).getD 3 0) kT :=
+  ⟨efjc_deriv_above_guards f Lp Lc St kT hf hLp hkT hSt hx, efjc_jac_Lp_above f Lp Lc St kT hf hLp hkT hSt hx,
+   efjc_jac_kT_above f Lp Lc St kT hf hLp hkT hSt hx⟩
+/-- the library's default `L_p = 40 nm`, `kT = 4.11`, `f = 30 pN`: `2 f L_p / kT ≈ 584` -/
+example : (500:ℝ) < 30 * (2 * 40 / 4.11) := by norm_num
+
+/-- between the guards (`300 < 2 f L_p / kT < 500`) the model function still has the true `coth`, the derivative has
+    lost its `1/sinh²` term: the true derivative is the code's value minus `L_c (f/S_t + 1)(2 L_p/kT) / sinh²(2 f L_p/kT)`,
+    and that defect is at most `2⁻⁵⁹⁶ ≈ 4·10⁻¹⁸⁰` times `L_c (f/S_t + 1)(2 L_p/kT)` — far below what any
+    numerical differentiation resolves -/
+theorem efjc_distance_between_guards (f Lp Lc St kT : ℝ) (hf : 0 < f) (hLp : 0 < Lp) (hkT : 0 < kT) (hSt : 0 < St)
+    (hlo : 300 < f * (2 * Lp / kT)) (hhi : f * (2 * Lp / kT) < 500) :
+    HasDerivAt (fun f => efjcDistance f Lp Lc St kT)
+      (efjcDistanceDeriv f Lp Lc St kT - Lc * (f / St + 1) * (2 * Lp / kT) / (Real.sinh (f * (2 * Lp / kT))) ^ 2) f ∧
+    1 / (Real.sinh (f * (2 * Lp / kT))) ^ 2 ≤ 1 / 2 ^ 596 :=
+  ⟨efjc_deriv_between_guards f Lp Lc St kT hf hLp hkT hSt hlo hhi, inv_sinh_sq_le _ hlo.le⟩
+/-- `L_p = 40`, `kT = 4.11`, `f = 20`: `2 f L_p / kT ≈ 389` -/
+example : (300:ℝ) < 20 * (2 * 40 / 4.11) ∧ (20:ℝ) * (2 * 40 / 4.11) < 500 := by constructor <;> norm_num
+
 /-! ## Deepening round D: compositions without inversion — `M.jac` is the gradient of `M.val` (structural induction) -/
 
 
@@ -1951,5 +1987,48 @@ theorem demo_tree_hypotheses :
       fun li ri pl pr g1 g2 g3 g4 => key LeafDerOK hD1 hD2 mi oi o pm h1 h2 h3 h4 li ri pl pr g1 g2 g3 g4⟩
   · intro mi oi o pm h1 h2 h3 h4 li ri pl pr g1 g2 g3 g4
     exact key LeafDerOK hD1 hD2 mi oi o pm h1 h2 h3 h4 li ri pl pr g1 g2 g3 g4
+
+/-! ## Deepening round D: one numerical inversion on top of an inversion-free composition -/
+
+section inverted
+open Filter Topology
+
+/-- `InverseModel.derivative` on top of any inversion-free composition (`invert()`, and `efjc_force` / `twlc_force`,
+    which are the inversions of `efjc_distance` / `twlc_distance`): if the value the numerical inversion returns is, as a
+    function `g` of the abscissa, continuous and an exact right inverse of the inner model function near `x`
+    (the idealised inversion), then what `M.der` of the inverted model returns — `1 / f'(g x)` with `f'` the inner
+    composition's own analytic derivative — IS the derivative of `g`. -/
+theorem inverted_tree_derivative_sound (m : M) (x : ℝ) (p : List ℝ) (g : ℝ → ℝ) (d : ℝ) (hc : m.countInv = 0)
+    (hl : LeafDerOK m (g x) p) (hg : ContinuousAt g x) (hinv : ∀ᶠ z in 𝓝 x, m.val (g z) p [] = some z)
+    (hd : (M.inv m).der x p [g x] = some d) (hne : m.der (g x) p [] ≠ some 0) :
+    HasDerivAt g d x := by
+  rw [M.der] at hd
+  simp only [Option.bind_eq_bind, Option.bind_eq_some_iff, Option.some.injEq] at hd
+  obtain ⟨d', h1, h2⟩ := hd
+  obtain ⟨F, hF, hD⟩ := tree_derivative_sound m (g x) p d' hc hl h1
+  have hd0 : d' ≠ 0 := by
+    intro h0; apply hne; rw [h1, h0]
+  have hfg : ∀ᶠ z in 𝓝 x, F (g z) = z := by
+    filter_upwards [hinv] with z hz
+    rw [hF (g z)] at hz
+    exact Option.some.inj hz
+  rw [← h2]
+  exact inverse_derivative_rule F g d' x hg hD hd0 hfg
+
+/-- non-vacuity of the model-side hypotheses (`ewlc_odijk_distance(…).invert()` at `F = 10`: the leaf is fine, the inner
+    derivative is positive); the analytic hypotheses about `g` are those of `inverse_derivative_rule`, whose example
+    exhibits such a `g` -/
+theorem demo_inverted : ∃ (m : M) (x : ℝ) (p : List ℝ) (g : ℝ → ℝ), m.countInv = 0 ∧ LeafDerOK m (g x) p ∧
+    m.der (g x) p [] ≠ some 0 := by
+  refine ⟨M.base .odijkD ["m/Lp", "m/Lc", "m/St", "kT"], 14, [40, 16, 1500, 4.11], fun _ => 10, rfl,
+    (leaf_der_ok _).1 10 40 16 1500 4.11 (by norm_num) (by norm_num) (by norm_num) (by norm_num), ?_⟩
+  intro h
+  rw [M.der] at h
+  have h' := Option.some.inj h
+  simp only [odijkDistanceDeriv, RealLike.sqrt] at h'
+  have hs : 0 < Real.sqrt (4.11 * (1.0 / 10) / 40) := Real.sqrt_pos.mpr (by norm_num)
+  have : (0:ℝ) < 16 * (0.25 * (1.0 / 10) * Real.sqrt (4.11 * (1.0 / 10) / 40) + 1.0 / 1500) := by positivity
+  linarith
+end inverted
 
 end Verif.C13
